@@ -52,14 +52,23 @@ class ProxyFile(object):
     # --- faultable operations
     def write(self, data):
         seam = self._seam
+        if self._real.closed:
+            raise ValueError("I/O operation on closed file.")
         f = seam.plan.hit("write") if seam.plan else None
         if f is not None:
             keep = data[: max(0, min(len(data), f.get("keep", 0)))]
             if len(keep):
-                self._real.write(keep)
+                try:
+                    self._real.write(keep)
+                    self._real.flush()
+                except TypeError:
+                    keep = keep[:0]   # wrong payload type for this file: nothing reaches it
             seam.events.append(("write_fault", self._rel, len(keep)))
             raise InjectedOSError(f["errno"], os.strerror(f["errno"]), self._rel)
         n = self._real.write(data)
+        # write-through: nothing may sit in a user-space buffer that a late (garbage
+        # collected) close would flush at a nondeterministic moment
+        self._real.flush()
         seam.bytes_written += len(data)
         return n
 
@@ -161,6 +170,7 @@ class FsSeam(object):
         self.events = []
         self.plan = None
         self.bytes_written = 0
+        self.open_writers = []
         self._orig_open = None
         self._orig_io_open = None
 
@@ -188,7 +198,10 @@ class FsSeam(object):
             raise InjectedOSError(f["errno"], os.strerror(f["errno"]), rel)
         real = self._orig_open(file, mode, *args, **kwargs)
         self.events.append(("open", rel, mode))
-        return ProxyFile(self, real, rel, mode)
+        px = ProxyFile(self, real, rel, mode)
+        if any(c in mode for c in "wa+x"):
+            self.open_writers.append(px)
+        return px
 
     def install(self):
         self._orig_open = builtins.open
@@ -201,6 +214,25 @@ class FsSeam(object):
             builtins.open = self._orig_open
             io.open = self._orig_io_open
             self._orig_open = None
+
+    def sweep(self):
+        """End of an operation: close every write handle the operation leaked (e.g.
+        gzip.GzipFile leaks its file object when its constructor fails).  The real
+        system would close it whenever the garbage collector gets to it; the
+        simulator picks the earliest moment so that the choice is deterministic and
+        a finaliser can never write into a file that was re-exported meanwhile."""
+        n = 0
+        for px in self.open_writers:
+            real = object.__getattribute__(px, "_real")
+            if not real.closed:
+                try:
+                    real.close()
+                except Exception:
+                    pass
+                self.events.append(("swept", object.__getattribute__(px, "_rel")))
+                n += 1
+        self.open_writers = []
+        return n
 
     def arm(self, faults):
         self.plan = FaultPlan(faults)
